@@ -87,6 +87,9 @@ class ConcreteCtx:
     @staticmethod
     def popcount(x): return bin(int(x)).count("1")
 
+    def ratio_is(self, r, num, den):
+        return den != 0 and r == num / den
+
     def all_eq(self, xs, ys):
         xs, ys = list(xs), list(ys)
         return len(xs) == len(ys) and all(a == b for a, b in zip(xs, ys))
